@@ -177,8 +177,6 @@ def run(ctx: Ctx) -> None:
 
 
 def replay(ctx: Ctx, path: str) -> None:
-    import json
-    with open(path) as f:
-        r = json.load(f)
-    print(json.dumps(r, indent=1)[:4000])
+    """re-run the recorded input (the step that reported it runs that single case)"""
+    ctx.load_replay(path)
     run(ctx)
